@@ -230,6 +230,7 @@ func c02(tier string) []*explore.Scenario {
 	out = append(out, httpResponseLost("C02"))
 	out = append(out, apiSeqs("C02", tier)...)
 	out = append(out, handlerSeqs("C02", tier)...)
+	out = append(out, opInWriteAll("C02", 0)...)
 	return out
 }
 
